@@ -69,13 +69,27 @@ func vC09Client(sh *vShape) {
 			vAssert(err == nil, "C09: Remove ok")
 		}
 	case 4:
-		n := vPick("a.nnames", sh.listLens)
+		n := vPick("a.nnames", append(append([]int(nil), sh.listLens...), 16, 17))
 		names := make([]string, n)
 		for i := range names {
-			names[i] = ndStr("a.name", sh.strLens)
+			if n > 4 {
+				names[i] = string([]byte{byte('a' + i)})
+			} else {
+				names[i] = ndStr("a.name", sh.strLens)
+			}
 		}
 		var qs []Qid
 		qs, err = c.Walk(vBG, fid, fid2, names...)
+		if n > 16 {
+			// more names than one Twalk carries: refusing is fine, sending fewer names is not
+			if len(rt.sent) > 0 {
+				vAssert(vMsgEq(MessageTwalk{Fid: fid, Newfid: fid2, Wnames: names}, rt.sent[0]), "C09: the T-message carries exactly the caller's arguments")
+			} else {
+				vAssert(err != nil, "C09: a walk that cannot be sent is an error")
+			}
+			vReach("c09.client.ok")
+			return
+		}
 		check(MessageTwalk{Fid: fid, Newfid: fid2, Wnames: names})
 		if okReply {
 			vAssert(err == nil && vMsgEq(MessageRwalk{Qids: qs}, reply), "C09: Walk returns the Rwalk qids")
@@ -263,3 +277,42 @@ func vC09FlowControl(n int) {
 
 func VerifC09_FlowControl5() { vC09FlowControl(5) }
 func VerifC09_FlowControl6() { vC09FlowControl(6) }
+
+// ---- two reads in flight on the real server-side handler ------------------------
+// SSession(S) behind the real serve loop; S.Read fills the buffer it is given
+// with a byte derived from the fid.  Both replies are taken off the channel
+// first and inspected afterwards: each must carry exactly what S produced for
+// its own call (a reply must not share storage with a later call).
+type vFillSess struct{ Session }
+
+func (vFillSess) Read(ctx context.Context, fid Fid, p []byte, offset int64) (int, error) {
+	for i := range p {
+		p[i] = byte('a' + fid)
+	}
+	return len(p), nil
+}
+func (vFillSess) Version() (int, string) { return DefaultMSize, DefaultVersion }
+func (vFillSess) Stop(err error) error   { return err }
+
+func VerifC09_TwoReads() {
+	ch := newVPeerChannel()
+	ctx, cancel := context.WithCancel(vBG)
+	defer cancel()
+	c := &conn{ctx: ctx, ch: ch, handler: SSession(vFillSess{}), closed: make(chan struct{})}
+	go c.serve()
+	n := uint32(1 + ndChoice("count", 2))
+	ch.fromPeer <- &Fcall{Type: Tread, Tag: 1, Message: MessageTread{Fid: 1, Offset: ndU64("off1"), Count: n}}
+	ch.fromPeer <- &Fcall{Type: Tread, Tag: 2, Message: MessageTread{Fid: 2, Offset: ndU64("off2"), Count: n}}
+	r1 := <-ch.toPeer
+	r2 := <-ch.toPeer
+	for _, r := range []*Fcall{r1, r2} {
+		rr, ok := r.Message.(MessageRread)
+		vAssert(ok && len(rr.Data) == int(n), "C09: read returns the session's bytes")
+		if ok {
+			for _, b := range rr.Data {
+				vAssert(b == byte('a')+byte(r.Tag), "C09: callers issuing calls concurrently each obtain their own results")
+			}
+		}
+	}
+	vReach("c09.tworeads")
+}
